@@ -2,8 +2,10 @@ package simworld
 
 import (
 	"context"
+	"sort"
 	"time"
 
+	apiequality "k8s.io/apimachinery/pkg/api/equality"
 	"k8s.io/apimachinery/pkg/runtime"
 	kubeinformers "k8s.io/client-go/informers"
 	coreinformers "k8s.io/client-go/informers/core"
@@ -29,10 +31,13 @@ type Informer struct {
 	// Lag[i] = true: handler i does not see events at Deliver time; they queue up in backlog[i].
 	Lag     map[int]bool
 	backlog map[int][]Event
+	// snap holds a private deep copy of every object at the moment it entered the cache: the cache mutation detector
+	// (objects in an informer cache are shared between all workers and must never be written to).
+	snap map[string]runtime.Object
 }
 
 func NewInformer(api *API, res string) *Informer {
-	return &Informer{api: api, res: res, Lag: map[int]bool{}, backlog: map[int][]Event{},
+	return &Informer{api: api, res: res, Lag: map[int]bool{}, backlog: map[int][]Event{}, snap: map[string]runtime.Object{},
 		indexer: cache.NewIndexer(cache.MetaNamespaceKeyFunc, cache.Indexers{cache.NamespaceIndex: cache.MetaNamespaceIndexFunc})}
 }
 
@@ -60,13 +65,17 @@ func (i *Informer) Deliver() bool {
 	}
 	e := log[i.next]
 	i.next++
+	k, _ := cache.MetaNamespaceKeyFunc(e.New)
 	switch e.Type {
 	case "add":
 		_ = i.indexer.Add(e.New)
+		i.snap[k] = e.New.DeepCopyObject()
 	case "update":
 		_ = i.indexer.Update(e.New)
+		i.snap[k] = e.New.DeepCopyObject()
 	case "delete":
 		_ = i.indexer.Delete(e.New)
+		delete(i.snap, k)
 	}
 	for idx, h := range i.handlers {
 		if i.Lag[idx] {
@@ -87,6 +96,22 @@ func notify(h cache.ResourceEventHandler, e Event) {
 	case "delete":
 		h.OnDelete(e.New)
 	}
+}
+
+// Mutated returns the keys of cached objects that no longer equal the copy taken when they entered the cache.
+func (i *Informer) Mutated() []string {
+	out := []string{}
+	for _, k := range i.indexer.ListKeys() {
+		o, ok, _ := i.indexer.GetByKey(k)
+		if !ok {
+			continue
+		}
+		if s, ok := i.snap[k]; ok && !apiequality.Semantic.DeepEqual(o, s) {
+			out = append(out, i.res+":"+k)
+		}
+	}
+	sort.Strings(out)
+	return out
 }
 
 // Backlog returns the number of events a lagging handler has not handled yet.
@@ -112,8 +137,12 @@ func (i *Informer) Relist(objs []runtime.Object) {
 	for _, o := range i.indexer.List() {
 		_ = i.indexer.Delete(o)
 	}
+	i.snap = map[string]runtime.Object{}
 	for _, o := range objs {
 		_ = i.indexer.Add(o)
+		if k, err := cache.MetaNamespaceKeyFunc(o); err == nil {
+			i.snap[k] = o.DeepCopyObject()
+		}
 		for _, h := range i.handlers {
 			h.OnAdd(o)
 		}
